@@ -1,7 +1,7 @@
 SPECIFICATION GSpec
 CONSTANTS
   MaxIf = 3
-  MaxGen = 3
+  MaxGen = 2
   RestartRule = "stop_old"
   PortRule = "opened"
 INVARIANT Emit1
